@@ -12,7 +12,8 @@ Recognised statements: docstring, `x = e`, `x: T = e`, `x += e`, `return e`, `ra
 `msg = <string>`, `x.append(e)`, `x.remove(e)`, a call of a translated function as a statement,
 `if`/`else` (either branch may return/raise or fall through; `X is None` tests narrow an optional),
 `while` (becomes a fuelled Fixpoint over the variables the body assigns), `for n in topology.nodes`.
-Recognised expressions: names, int/float literals with integer value, None, unary minus, +, one-operator
+Recognised expressions: names, int/float literals with integer value, None, unary minus, +, set difference, set literals
+of ints, ==/!= of sets, one-operator
 comparisons, and/or/not, `in`, `is (not) None`, [e], [], len, sorted, tuple, list, reversed, next(iter(s)),
 float, Decimal, s[0], topology.edges[i] (+ .originating_node_id/.ending_node_id), the Topology methods
 named in PRIMS, calls of already translated functions.
@@ -38,6 +39,9 @@ TARGETS = [
     ("helicity/decay.py", "is_opposite_helicity_state"),
     ("helicity/decay.py", "get_parent_id"),
     ("helicity/decay.py", "list_decay_chain_ids"),
+    ("helicity/decay.py", "assert_three_body_decay"),
+    ("helicity/decay.py", "get_spectator_id"),
+    ("helicity/decay.py", "get_decay_product_ids"),
     ("kinematics/lorentz.py", "__get_boost_chain_ids"),
     ("helicity/align/_spin.py", "create_spin_range"),
 ]
@@ -69,7 +73,8 @@ def cname(name):
 def ann_type(a, ret=False):
     s = ast.unparse(a) if a is not None else None
     table = {"Topology": "topo", "int": "Z", "bool": "bool", "SupportsFloat": "num", "list[int]": "listZ",
-             "list[float]": "listZ", "int | None": "optZ"}
+             "list[float]": "listZ", "int | None": "optZ", "Literal[1, 2, 3]": "Z",
+             "tuple[Literal[1, 2, 3], Literal[1, 2, 3]]": "listZ"}
     if ret and s == "None":
         return "unit"
     if s in table:
@@ -169,6 +174,15 @@ class Fn:
             if ta != tb or ta not in ("Z", "num"):
                 refuse(e, f"+ on {ta}, {tb}")
             return f"({a} + {b})", ta
+        if isinstance(e, ast.BinOp) and isinstance(e.op, ast.Sub):
+            (a, ta), (b, tb) = self.ex(e.left), self.ex(e.right)
+            if ta == tb == "setZ":
+                return f"(set_diff {a} {b})", "setZ"
+            refuse(e, f"- on {ta}, {tb}")
+        if isinstance(e, ast.Set):
+            if not all(isinstance(x, ast.Constant) and isinstance(x.value, int) and not isinstance(x.value, bool) for x in e.elts):
+                refuse(e, "set literal")
+            return "(set_of [" + "; ".join(f"({x.value})" for x in e.elts) + "])", "setZ"
         if isinstance(e, ast.BoolOp):
             op = " || " if isinstance(e.op, ast.Or) else " && "
             return "(" + op.join(self.test(v) for v in e.values) + ")", "bool"
@@ -224,6 +238,9 @@ class Fn:
                 return tab[type(op)]
         if ta == tb == "listZ" and isinstance(op, ast.Gt):
             return f"(tuple_gtb {a} {b})"
+        if ta == tb == "setZ" and isinstance(op, (ast.Eq, ast.NotEq)):   # both sides canonical (strictly sorted)
+            c = f"(Kin.lZ_eqb {a} {b})"
+            return c if isinstance(op, ast.Eq) else f"(negb {c})"
         refuse(e, f"comparison {type(op).__name__} on {ta}, {tb}")
 
     def attribute(self, e):
